@@ -9,7 +9,7 @@ from mc.rec import Rec
 from ref import ccsds as R
 
 PROPERTY = "C01"
-LEVEL = "exploration"
+LEVEL = "model_checking"  # bounded-exhaustive enumeration of executions against a reference model (DESIGN.md 1, 2.1)
 EXHAUSTIVE = True
 RULE = (
     "header = three 16-bit words; each word swept over all 65536 values in K^2 backgrounds of the other two "
